@@ -120,7 +120,7 @@ class Model:
         raise ValueError(pos)
 
 
-OPS = ["assign-attr", "assign-tree", "assign-subdict", "same", "fresh", "files", "append", "rekey-root", "rekey-sub", "move-sub", "adopt-item"]
+OPS = ["assign-attr", "assign-tree", "assign-subdict", "same", "fresh", "files", "append", "rekey-root", "rekey-sub", "move-sub", "adopt-item", "attach-used"]
 
 
 def histories(depth):
@@ -141,6 +141,9 @@ def histories(depth):
         out.append([first])
         for a in ("same", "fresh", "files", "append-ts"):
             out.append([first, a])
+    # the sub-configuration names, explicitly, the key file it would inherit anyway; then the root changes its own
+    out.append(["assign-attr", "pin-sub", "rekey-root"])
+    out.append(["assign-tree", "pin-sub", "rekey-root"])
     if depth < 3:
         # load-then-change-key histories are the shortest ones that involve a value that was *loaded* (not assigned)
         # before a key file changes; they are always included
@@ -364,8 +367,7 @@ def run_history(ctx, job, pname, hist):
                 elif kname != want_key and got == plain.encode() and KEYS[kname] != KEYS[want_key]:
                     bad("decrypts-under-other-key", "%s decrypts under the %s key file as well" % (pos, kname))
         # (c) a new configuration object with the same key-file assignment reads everything back
-        fresh = new_config(build(method, placement, tmp), placement, tmp, rootkey=model.own["root"] or "root")
-        _apply_model_keys(fresh, model, tmp)
+        fresh = _fresh_from_model(model)
         try:
             with core.audit_opens() as log2:
                 fresh.loads(data, fmt)
@@ -377,6 +379,13 @@ def run_history(ctx, job, pname, hist):
         for pos, plain in model.secrets.items():
             if got.get(pos) != plain:
                 bad("reload-differs|%s" % _poskind(pos), "after reload %s reads %r" % (pos, got.get(pos)))
+
+    def _fresh_from_model(m):
+        # a new configuration object whose key-file assignment is exactly the model's current one
+        sch = build(method, placement, tmp)
+        c = cc.Config(sch, key_filename=keypath(tmp, m.own["root"])) if m.own["root"] else sch()
+        _apply_model_keys(c, m, tmp)
+        return c
 
     def _apply_model_keys(c, m, t):
         # the fresh configuration gets the *current* key-file assignment of the model
@@ -426,15 +435,13 @@ def run_history(ctx, job, pname, hist):
                 cfg.loads(data, fmt)
             elif op == "fresh":
                 data = cfg.dumps(fmt)
-                nxt = new_config(build(method, placement, tmp), placement, tmp)
-                _apply_model_keys(nxt, model, tmp)
+                nxt = _fresh_from_model(model)
                 nxt.loads(data, fmt)
                 cfg = nxt
             elif op == "files":
                 path = os.path.join(tmp, "cfg." + fmt)
                 cfg.save(path, fmt)
-                nxt = new_config(build(method, placement, tmp), placement, tmp)
-                _apply_model_keys(nxt, model, tmp)
+                nxt = _fresh_from_model(model)
                 nxt.load(path, fmt)
                 cfg = nxt
             elif op == "append":
@@ -462,6 +469,29 @@ def run_history(ctx, job, pname, hist):
                 n = len(cfg.items)
                 cfg.items.append(it)
                 model.secrets.update({"items[%d].s" % n: p2, "items[%d].inner.s" % n: p})
+            elif op == "attach-used":
+                # configurations that were used on their own first (no parent, default key file) are attached to this tree
+                obj = schema._fields["sub"]()
+                obj.s = p2
+                obj.deep.s = p
+                obj.dumps(fmt)
+                cfg.sub = obj
+                model.own["sub"] = None
+                model.own["deep"] = None
+                model.secrets.update({"sub.s": p2, "sub.deep.s": p})
+                it = schema._fields["items"].field()
+                it.s = p
+                it.inner.s = p2
+                it.dumps(fmt)
+                if cfg.items is None:
+                    cfg.items = []
+                n = len(cfg.items)
+                cfg.items.append(it)
+                model.secrets.update({"items[%d].s" % n: p, "items[%d].inner.s" % n: p2})
+            elif op == "pin-sub":
+                pinned = model.own["sub"] or model.own["root"] or "default"
+                cfg.sub._key_filename = keypath(tmp, pinned)
+                model.own["sub"] = pinned
             elif op == "rekey-root":
                 cfg.dumps(fmt)                      # the key files have been used
                 cfg._key_filename = keypath(tmp, "root2")
